@@ -327,6 +327,19 @@ theorem walkRoot_eq (flt : Bool) (r : Node) (hg : goodRoot r = true) :
   unfold walkRoot ownedWalk
   rw [← h.1, sStepF_eq, travL_filter]
 
+/-- the walk over explicitly given nodes (`asts=`) yields everything below them that belongs to the two scopes involved -/
+theorem walkAsts_eq (flt : Bool) (r : Node) (hg : goodAsts r = true) :
+    walkAsts flt r = (ownedAsts r).filter (fun n => !flt || n.kind.isSym) := by
+  have hg' : goodGL (sStepF flt) (mStep flt) ok ⟨.norm, true, true, true, true⟩ .loop r.kids = true := by
+    rw [goodGL_congr (sStepF flt) sStep (mStep flt) (mStep false) ok (fun _ _ _ => rfl)
+      (fun t k r => mStep_snd flt t k r)]
+    exact hg
+  have h := travL_sim (sStepF flt) (mStep flt) rel ok
+    (fun s t k r hR hk => step_ok flt s t k r hR hk)
+    r.kids ⟨.norm, true, true, true, true⟩ .loop (by decide) hg'
+  unfold walkAsts ownedAsts
+  rw [← h.1, sStepF_eq, travL_filter]
+
 /-! ### `scope_symbols` fold -/
 
 theorem addKeys_nil (l : List Nat) : addKeys l [] = l := rfl
